@@ -37,16 +37,26 @@ func C13(tier rt.Tier) int {
 		runs = []cfg{
 			{name: "3keys-levels0+64", keys: []int{0, 2, 5}, vals: []string{"a", "b"}, levels: []int{0, 64}, gc: true, rootOp: true, depth: 7, c13: true, maxNoDup: 5},
 			{name: "deep-pair", keys: []int{0, 1}, vals: []string{"a", "b", "c"}, levels: []int{0, 1, 64}, gc: true, depth: 8, c13: true, maxNoDup: 5},
+			// one key, much deeper: many commits and collection passes before the checkpoint
+			{name: "1key-very-deep", keys: []int{0}, vals: []string{"a", "b"}, levels: []int{0}, gc: true, depth: 12, c13: true, maxNoDup: 7},
 		}
 	} else {
 		per = 8 * time.Minute
 		runs = []cfg{
 			{name: "3keys-all-levels", keys: []int{0, 2, 5}, vals: []string{"a", "b"}, levels: []int{0, 1, 2, 64}, gc: true, rootOp: true, depth: 9, c13: true, maxNoDup: 5},
 			{name: "4keys", keys: []int{0, 1, 2, 4}, vals: []string{"a", "b"}, levels: []int{0, 64}, gc: true, depth: 9, c13: true, maxNoDup: 5},
+			{name: "1key-very-deep", keys: []int{0}, vals: []string{"a", "b"}, levels: []int{0, 1}, gc: true, depth: 15, c13: true, maxNoDup: 8},
 		}
 	}
 	for _, c := range runs {
 		runCfg(rep, c, time.Now().Add(per), c11Classify)
+	}
+	if rt.Replay == nil || rt.Replay.Run == "scale" {
+		added := []int{300, 301, 302, 303}
+		if tier == rt.Thorough {
+			added = []int{300, 301, 302, 303, 600, 1500, 1501, 1502, 1503}
+		}
+		scaleC13(rep, 200, added)
 	}
 	rep.Set("dedup", haveDump)
 	rep.Set("rule", "BFS over all histories {Update, delete (incl. same-value rewrites and delete-and-re-add of identical content), Commit(level)+batch.Commit, DeleteNodes anywhere, SaveRoot (checkpoint, once, on a committed state), then exactly one further commit, then Rollback() or RollbackTrie(checkpoint node)}; after the rollback: Root()/Weight()/owner of every block equal the checkpoint model, a trie reopened at the checkpoint root resolves every block with a verifying proof, and storage holds no key that was not there when the checkpoint was taken; the exploration continues after the rollback")
